@@ -173,10 +173,8 @@ def run(prop, tier):
                 cases.append(("two", cl, pl, None))
         meta = lambda tid, first: obs.stream_meta(tid, 10, "L", cpus=[(0, 0)] if first else None)
 
-        def one(case):
+        def streams_of_case(case):
             kind, cl, pl, _ = case
-            td = os.path.join(base, "w%d" % os.getpid())
-            shutil.rmtree(td, ignore_errors=True)
             streams = []
             if kind == "two":
                 first = build_stream((0, 1, 2, 2), ((1, 3),), 100)
@@ -186,6 +184,13 @@ def run(prop, tier):
                 streams.append((obs.relpath("L", 10, 100), build_stream(cl, pl, 100, foreign=True), True))
             else:
                 streams.append((obs.relpath("L", 10, 100), build_stream(cl, pl, 100), True))
+            return streams
+
+        def one(case):
+            kind, cl, pl, _ = case
+            td = os.path.join(base, "w%d" % os.getpid())
+            shutil.rmtree(td, ignore_errors=True)
+            streams = streams_of_case(case)
             for rel, evs, first in streams:
                 obs.write_stream(td, rel, meta(int(rel.split(".")[-1]), first), enc_all(evs))
             out = []
@@ -229,6 +234,32 @@ def run(prop, tier):
                               {"engine": "E6 real ovnisort", "kind": case[0], "clocks": case[1], "regions": case[2]}, {"kind": "sort"})
         ctx.add(states=len(cases))
         ctx.part("sortable", cases=len(cases))
+        # the environment may complete a pwrite() only partly: one short count (1 byte / half / all but one) at the first,
+        # second or third write of the sorted region must be invisible
+        sw = [(c, k, how) for c in cases[::(9 if tier == "quick" else 3)] if c[2] for k in (1, 2, 3) for how in (1, 2, 3)]
+
+        srt_io = build.tool_heapbuf("sanx", "ovnisort")      # this build routes pwrite() through harness/mmap_heap.c
+
+        def one_sw(j):
+            case, k, how = j
+            td = os.path.join(base, "p%d" % os.getpid())
+            shutil.rmtree(td, ignore_errors=True)
+            streams = streams_of_case(case)
+            for rel, evs, first in streams:
+                obs.write_stream(td, rel, meta(int(rel.split(".")[-1]), first), enc_all(evs))
+            rc, o, err = emusrv.run_tool(srt_io, [td], env_extra={"VERIF_SHORT_PWRITE": "%d:%d" % (k, how)})
+            if rc != 0:
+                return "ovnisort fails (exit %r) when the %d-th pwrite() completes partly: %s" % (rc, k, err[-160:])
+            for rel, evs, first in streams:
+                if open(os.path.join(td, rel, "stream.obs"), "rb").read() != enc_all(stable_sorted(evs)):
+                    return "stream %s is not the stable sort of its events after the %d-th pwrite() completed partly (mode %d)" % (rel, k, how)
+            return None
+        for j, msg in zip(sw, pmap(one_sw, sw)):
+            ctx.add(evaluations=1, transitions=1)
+            if msg:
+                ctx.violation("stream clocks=%r regions=%r (%s): %s" % (j[0][1], j[0][2], j[0][0], msg),
+                              {"engine": "E6 real ovnisort", "kind": j[0][0], "clocks": j[0][1], "regions": j[0][2], "short_pwrite": [j[1], j[2]]}, {"kind": "short-pwrite"})
+        ctx.part("short-pwrite", cases=len(sw))
         # look-back window too small: must not claim success on an unsorted stream
         lb = []
         for (cl, pl) in (shapes(4, (0, 1, 2), 1) if tier == "quick" else shapes(5, (0, 1, 2), 1)):
